@@ -81,15 +81,32 @@ source.  The first repair of D26 left one combination of *two* storage faults th
 fails after it took effect and the `GetMeta` of the cleanup fails too (`setmeta_and_getmeta_fail_lose_current`, on
 `cleanupKeepsWhenGetMetaFails = false`); commit 98bd5c2 keeps the file in that case as well.
 
-`fault_safe_writer` (and `fault_safe_writer_created`, from an empty storage) still carry `noD10`/`noD26`: the
-invariant of `Proofs/DurableInv.lean` says that the session mirrors the last view of the manifest, which is false
-between a manifest append/`Sync`/`SetMeta` that failed *with* effect and the next successful `newManifest`.
-`fault_safe_full` is the statement without them (every fault class).  It is not
-proved; random exploration of the machine with every fault class enabled (`Scratch/Explore.lean` in the work
-area: 3 000 runs of 200 steps, crash images checked after every step, transactions with `Discard` after failed
-commits) finds no violation of it for the repaired configuration, and finds violations for
-`discardKeepsTablesWhenUncertain = false`, `cleanupChecksCurrent = false` and `cleanupKeepsWhenGetMetaFails = false`.  Damaged data under checksum
-verification: C12 (journal chunks) and C13 (table blocks).
+`fault_safe_writer` (and `fault_safe_writer_created`, from an empty storage) hold for every good configuration,
+the code as found included, and therefore carry `noD10`/`noD26`.
+
+**The repaired code under the D10/D26 shapes: `fault_safe_full_partial`.**  Between a manifest append or `SetMeta`
+that reported an error *after it took effect* and the next successful `newManifest` the storage is one edit ahead of
+the session: every crash image shows, or may show, an edit whose commit was reported as failed.  The machine carries
+that edit as a ghost (`St.limbo`, set where the operation fails, cleared where `SetMeta` succeeds, never read by the
+machine); the invariant (`Proofs/DurableInv.lean`: `MirrorL`, `LimboOK`) says that the session mirrors the last view
+of the manifest *up to that edit*, that the edit is the one the running job is retrying (`JPc.retry`) or that of a
+transaction discarded after its failed commit (`OrphanOK`: one synced table with one group, reported as failed, its
+sequence numbers consumed — the next `Open` adopts it, nothing acknowledged depends on it), and the manifest clause of
+`JobOK.fresh` lets the retried edit's tables be live in the views that already show it.  With this
+`fault_safe_full_partial` proves crash consistency for the repaired configuration, from an empty storage, for runs in
+which **every storage operation may fail in any way — the two D10/D26 shapes "append of the record fails with effect"
+and "`SetMeta` fails with effect" included, followed by `Discard`, retries, further faults, crashes — except that the
+manifest `Sync` of a commit does not fail** (`Act.noSyncFault`).  That is the gap to `fault_safe_full` (the statement
+with every fault class), named precisely: at the pc `sync` the job is behind `JPc.beforeCommit`, and the clauses of
+the invariant that a retry needs again (`InputsOK`'s live inputs, `JobOK.fresh` for the synced prefix,
+`FrozenFacts`' `FlushPending` part) are guarded by `beforeCommit`; a failing `Sync` takes the job back to `append`,
+where they have to hold again.  They do hold in every reachable state (the random exploration of the machine with
+every fault class enabled — `Scratch/Explore.lean` in the work area, mode `q`: the invariant itself evaluated after
+every step, 0 violations — covers failing `Sync`s), but the invariant is not inductive there yet.  The same
+exploration finds violations for `discardKeepsTablesWhenUncertain = false`, `cleanupChecksCurrent = false` and
+`cleanupKeepsWhenGetMetaFails = false`.  The standing side condition of the proof is `Dur.LimboSafe`: while the
+storage is ahead, `Discard` must leave the tables alone (the repair of D10) — for the code as found the D10 run
+violates exactly it.  Damaged data under checksum verification: C12 (journal chunks) and C13 (table blocks).
 -/
 namespace GoLevel.C08
 open GoLevel GoLevel.Dur
@@ -375,8 +392,77 @@ example : bigAllowed {} Act.faultsOK CPc.noD26 init0 faultyCreation = true := by
 example : (bigRun {} init0 faultyCreation).map (fun b => (C04.openError {} (crashWith {} b.disk), b.st.phase)) =
     some (none, .running) := by decide
 
-/-- **The statement without `noD10`/`noD26`** (not proved, see the header): crash consistency for every run of the
-    machine with the creation in front in which any storage operation may fail in any way. -/
+/-- **C08 for the repaired code, every storage fault but a failing manifest `Sync`.**  From an empty storage
+    (`Dur.init0`: the creation of the DB in front, every one of its operations may fail, the machine may crash inside
+    it), for the configuration with D4, D10 and D26 repaired: every run in which **any storage operation fails in any
+    way** — the append of a commit's record or `SetMeta` failing *after they took effect* included (the shapes of D10
+    and D26), with `Discard`s of the failed transactions, retries, and further faults in between — ends in a state
+    all of whose crash images open and are consistent with the history.  The one exclusion is `Act.noSyncFault`: the
+    manifest `Sync` of a commit does not fail (see the header for what is missing there). -/
+theorem fault_safe_full_partial {cfg : Cfg} (hg : cfg.Good) (hcs : cfg.consumeSeqOnJournalError = true)
+    (hc : cfg.manifestsAloneAreNoDB = true) (h10 : cfg.discardKeepsTablesWhenUncertain = true)
+    (h26a : cfg.cleanupChecksCurrent = true) (h26b : cfg.cleanupKeepsWhenGetMetaFails = true)
+    {xs : List BAct} {b : Big}
+    (hal : bigAllowed cfg (fun sd a => a.noSyncFault sd.1) (fun _ _ _ => true) init0 xs = true)
+    (hr : bigRun cfg init0 xs = some b)
+    {d' : Disk} (hi : IsCrashImage b.disk d') {c : UCmp} (hl : LawfulUCmp c) (hw : ∀ g ∈ issuedGrps b.st, g.wf) :
+    ∃ r, recoverR cfg d' = .ok r ∧ ∃ sel, C04.Consistent c b.st r sel := by
+  obtain ⟨ch, rfl⟩ := hi
+  have hrep : cfg.Repaired := ⟨hg, hcs, h10, h26a, h26b⟩
+  have hinv : BigInv cfg b := by
+    refine bigInv_run (P := fun sd a => a.noSyncFault sd.1)
+      (fun s d a s' d' h hp hs => inv_step_repaired hrep h hp hs) ?_ (bigInv_init0 cfg) xs hal hr
+    intro pc o gm _ _ _
+    rw [h26a, h26b]
+    cases gm <;> rfl
+  obtain ⟨r, hrec, hgood⟩ := hinv.open_ok hg.noTrace hc ch
+  exact ⟨r, hrec, C04.consistent_of_good hl hw hgood⟩
+
+/-- … and from the created DB (`Dur.init`) -/
+theorem fault_safe_full_partial_running {cfg : Cfg} (hg : cfg.Good) (hcs : cfg.consumeSeqOnJournalError = true)
+    (h10 : cfg.discardKeepsTablesWhenUncertain = true)
+    (h26a : cfg.cleanupChecksCurrent = true) (h26b : cfg.cleanupKeepsWhenGetMetaFails = true)
+    {as : List Act} {s : St} {d : Disk}
+    (hal : Allowed cfg (fun sd a => a.noSyncFault sd.1) init as) (hr : run cfg init as = some (s, d))
+    {d' : Disk} (hi : IsCrashImage d d') {c : UCmp} (hl : LawfulUCmp c) (hw : ∀ g ∈ issuedGrps s, g.wf) :
+    ∃ r, recoverR cfg d' = .ok r ∧ ∃ sel, C04.Consistent c s r sel := by
+  obtain ⟨ch, rfl⟩ := hi
+  have hinv : Inv cfg s d := inv_run_repaired ⟨hg, hcs, h10, h26a, h26b⟩ (inv_init cfg) as hal hr
+  obtain ⟨r, hrec, hgood⟩ := (hinv.disk.crash hg.noTrace ch).open_ok
+  exact ⟨r, hrec, C04.consistent_of_good hl hw hgood⟩
+
+/-- a transaction whose commit fails at the append of its record — after the record reached the file —, the client
+    discards it; then a synced write, the rotation of the buffer and its flush, whose commit goes through
+    `newManifest` (`manifestFailed`) with `SetMeta` failing after it took effect, and the retry -/
+def trAppendFailsDiscardThenSetMetaFails : List Act :=
+  [.trBegin, .trPut [⟨1, [98], [2]⟩], .trCommit, .job false .ok, .job false .ok, .job false .ok,   -- the table
+   .job false .failEffect,                                              -- append fails, the record is in the file
+   .trDiscard,                                                          -- the table stays
+   .wAppend C04.putKV true .ok, .wSync .ok, .wApply, .wPublish, .wAck, .rotate .ok, .flushStart,
+   .job false .ok, .job false .ok, .job false .ok,                      -- the table of the flush
+   .job false .ok, .job false .ok, .job false .ok,                      -- newManifest: Create, the record, Sync
+   .job false .failEffect,                                              -- SetMeta fails after it took effect
+   .job false .ok, .job false .ok, .job false .ok, .job false .ok,      -- the retry: another manifest
+   .job false .ok, .job false .ok, .job false .ok, .job false .ok, .job false .ok, .job false .ok]
+
+/-- … is a run `fault_safe_full_partial_running` speaks about (and none `fault_safe_writer` does); the acknowledged
+    write survives a crash after every prefix; at the end the flush is complete and the value is read -/
+example : allowed {} (fun sd a => a.noSyncFault sd.1) init trAppendFailsDiscardThenSetMetaFails = true := by decide
+example : allowed {} Act.faultsOK init trAppendFailsDiscardThenSetMetaFails = false := by decide
+example : (List.range (trAppendFailsDiscardThenSetMetaFails.length + 1)).all (fun n =>
+    C04.losesAcked {} {} (trAppendFailsDiscardThenSetMetaFails.take n) == some false) = true := by decide
+example : (run {} init trAppendFailsDiscardThenSetMetaFails).map (fun sd => (sd.1.job, sd.1.limbo.isSome, sd.1.manifestFailed)) =
+    some (none, false, false) := by decide
+example : C04.readsK {} trAppendFailsDiscardThenSetMetaFails = some (some [118]) := by decide
+/-- after the `Discard` the storage is ahead of the session (the ghost edit), every crash image opens, the discarded
+    transaction's table is adopted by that `Open` -/
+example : (run {} init (trAppendFailsDiscardThenSetMetaFails.take 8)).map (fun sd =>
+    (sd.1.limbo.isSome, sd.1.job, C04.openError {} (crashWith {} sd.2), sd.2.tables.map (·.1))) =
+    some (true, none, none, [3]) := by decide
+
+/-- **The statement with every fault class** (the manifest `Sync` included; not proved, see the header): crash
+    consistency for every run of the machine with the creation in front in which any storage operation may fail in
+    any way. -/
 def fault_safe_full : Prop :=
   ∀ (cfg : Cfg), cfg.Good → cfg.consumeSeqOnJournalError = true → cfg.manifestsAloneAreNoDB = true →
     cfg.discardKeepsTablesWhenUncertain = true → cfg.cleanupChecksCurrent = true →
@@ -388,7 +474,8 @@ def fault_safe_full : Prop :=
 /-- The property theorems of this file (for the audit). -/
 def theorems : List String :=
   ["GoLevel.C08.fault_safe_partial", "GoLevel.C08.fault_safe_jobs", "GoLevel.C08.fault_safe_writer",
-   "GoLevel.C08.fault_safe_writer_created", "GoLevel.C08.d4_loses_acked_write",
+   "GoLevel.C08.fault_safe_writer_created", "GoLevel.C08.fault_safe_full_partial",
+   "GoLevel.C08.fault_safe_full_partial_running", "GoLevel.C08.d4_loses_acked_write",
    "GoLevel.C08.d10_discard_after_failed_commit_loses_table",
    "GoLevel.C08.d26_setmeta_effect_then_cleanup_loses_current", "GoLevel.C08.setmeta_and_getmeta_fail_lose_current",
    "GoLevel.C08.code_discard_guard_and_cleanup_check"]
